@@ -105,6 +105,11 @@ def main() -> int:
             else:
                 server = RandomUDSServer(case["ecu_seed"], params, behavior)
                 await server.setup()
+                if env.get("restart"):
+                    # the virtual ECU is stopped and started again (same object, second setup/teardown cycle - what a supervisor
+                    # that restarts the serving task does): it must come back as the same ECU
+                    await server.teardown()
+                    await server.setup()
                 st = UDSServerTransport(server, TargetURI("tcp://h:1"))
                 result["model"] = {str(s): {str(int(k)): (list(map(int, v)) if v is not None else None) for k, v in sv.items()} for s, sv in server.services.items()}
             transcript = []
